@@ -407,63 +407,6 @@ def main(ck: Check):
         item.update(inputs)
         ck.add_failing(item)
 
-    # ============================================================ A. cases for the four step-wise targets
-    cases = []
-
-    def add_case(kind, lname, armor, budget, jobs=(), preset_state=None, level=None, replay=False, tag=""):
-        logic = make_logic(lname, rng)
-        ref_armor = 300 if armor is None else armor
-        cases.append({"kind": kind, "logic": lname, "logic_obj": logic, "armor": armor,
-                      "ref": make_reference_stat(lname, ref_armor, rng), "budget": budget, "jobs": list(jobs),
-                      "preset_state": preset_state, "level": level, "replay": replay, "tag": tag,
-                      "logic_params": {"attack_range_constant": logic.attack_range_constant, "mastery": logic.mastery}})
-
-    lnames = list(LOGICS)
-    levels = [139, 140, 141, 150, 199, 200, 210, 250, 260, 275, 285, 300]
-    n_rounds = 1 if quick else 6
-    for rnd in range(n_rounds):
-        for li, lname in enumerate(lnames):
-            for ai, armor in enumerate(ARMORS + [None]):
-                rp = (rnd == 0 and (li + ai) % 2 == 0) if quick else (rnd < 2)
-                # hyperstat: budgets are the maximum cost of character levels, plus odd ones
-                lv = rng.choice(levels) if not (rnd == 0 and armor == 300) else 300
-                b = Hyperstat.get_maximum_cost_from_level(lv)
-                if rng.random() < 0.3:
-                    b = rng.randint(0, max(1, b))
-                pre = None
-                if rng.random() < 0.4:
-                    pre = [rng.choice([0, 0, 1, 2, 5]) for _ in range(10)]
-                add_case("hyperstat", lname, armor, b, preset_state=pre, level=lv, replay=rp)
-                # link skills: the character's own job is pre-assigned
-                jobs = rng.sample(link_jobs(), rng.choice([0, 1, 1, 1, 2]))
-                add_case("linkSkill", lname, armor, rng.choice([0, 1, 2, 3, 6, 12, 13, 13, 20, 28]),
-                         jobs=[j.value for j in jobs], replay=rp and ai < 2)
-                # union squad
-                jobs = rng.sample(squad_jobs(), rng.choice([0, 1, 1, 2, 3]))
-                add_case("unionSquad", lname, armor, rng.choice([0, 1, 2, 5, 7, 10, 15, 30, 36, 47, 48]),
-                         jobs=[j.value for j in jobs], replay=rp and ai == 0)
-                # union occupation, sometimes with the buff-duration preset of preset.py
-                pre = None
-                r = rng.random()
-                if r < 0.35:
-                    pre = get_buff_duration_preempted_union_occupation_state()
-                elif r < 0.5:
-                    pre = [rng.choice([0, 3, 10]) for _ in range(5)]
-                add_case("unionOccupation", lname, armor, rng.choice([0, 1, 2, 7, 20, 41, 60, 80, 120, 199, 200, 202]),
-                         preset_state=pre, replay=rp and ai < 3)
-    if not quick:
-        # all budgets 0..max for one configuration of each kind
-        lname = rng.choice(lnames)
-        for b in range(0, 29):
-            add_case("linkSkill", lname, rng.choice(ARMORS), b, jobs=[rng.choice(link_jobs()).value], tag="all-budgets")
-        for b in range(0, 49):
-            add_case("unionSquad", lname, rng.choice(ARMORS), b, jobs=[rng.choice(squad_jobs()).value], tag="all-budgets")
-        for b in range(0, 203, 3):
-            add_case("unionOccupation", lname, rng.choice(ARMORS), b, tag="all-budgets")
-        for lv in range(139, 301, 2):
-            add_case("hyperstat", rng.choice(lnames), rng.choice(ARMORS), Hyperstat.get_maximum_cost_from_level(lv),
-                     level=lv, tag="all-levels")
-
     reqs, expect = [], []
     evaluations = 0
     distinct = set()
@@ -472,12 +415,15 @@ def main(ck: Check):
     affordable_single_steps = 0
     oracle_checked = 0
     samples = []
-    time_cap = ck.budget_s * (0.55 if quick else 0.6)
+    syn_outcomes = {}
+    weapon_brute = 0
+    plain_checked = [0]
+    weapon_distinct = set()
+    lnames = list(LOGICS)
 
-    for case in cases:
-        if ck.elapsed() > time_cap:
-            ck.notes.append(f"time cap reached after {evaluations} step-wise cases of {len(cases)}")
-            break
+    # ------------------------------------------------------------ one step-wise case on the real code
+    def run_stepwise(case):
+        nonlocal evaluations, single_steps_checked, affordable_single_steps, oracle_checked
         kind, armor, budget = case["kind"], case["armor"], case["budget"]
         eff_armor = 300 if armor is None else armor
         desc = {k: case[k] for k in ("kind", "logic", "logic_params", "armor", "ref", "budget", "jobs", "preset_state", "level")}
@@ -486,7 +432,7 @@ def main(ck: Check):
         except KeyError:
             # a preset job without a slot (e.g. no link skill lists the job): construction itself fails
             ck.notes.append(f"construction KeyError for jobs {case['jobs']} ({kind})")
-            continue
+            return
         logic, ref = case["logic_obj"], Stat(**case["ref"])
         init_state = list(target.state)
 
@@ -495,14 +441,14 @@ def main(ck: Check):
 
         v_init = ind_value(init_state)
         if not v_init > 0:
-            continue  # outside the positive-damage domain
+            return  # outside the positive-damage domain
         c_init = cost_of_state(kind, target, init_state)
         out, err, trace, table = run_real(target, budget, step_size, record_classes=TARGET_CLASSES)
         evaluations += 1
         per_kind[kind] = per_kind.get(kind, 0) + 1
         if err is not None:
             fail("optimizer raised", error=err, **desc)
-            continue
+            return
         res = list(out.state)
         distinct.add((kind, case["logic"], eff_armor, budget, tuple(res)))
         if len(samples) < 4 and res != init_state:
@@ -596,11 +542,9 @@ def main(ck: Check):
             expect.append(("clone", {"case": desc, "initial_state": list(fresh.state), "state": res,
                                      "armor": eff_armor, "maximum_step": out.maximum_step, "state_length": out.state_length}))
 
-    # ============================================================ B. synthetic table targets (all paths)
-    n_syn = 120 if quick else 1500
-    syn_outcomes = {}
-    for k in range(n_syn):
-        sp = make_synthetic(rng)
+    # ------------------------------------------------------------ one synthetic table target
+    def run_synthetic(sp):
+        nonlocal evaluations
         t = TableTarget(sp["costs"], sp["exps"], sp["mx"], sp["zero_at"], sp["state"])
         out, err, trace, table = run_real(t, sp["budget"], sp["step_size"], sp["max_iter"])
         evaluations += 1
@@ -631,48 +575,10 @@ def main(ck: Check):
                 if rw > -1:
                     fail("a single step from the result still has reward > -1", synthetic=sp, result=res, slot=i, reward=rw)
 
-    # iterator and get_stepped_target, directly
-    for n in range(0, 7):
-        for d in range(0, 6):
-            reqs.append({"fn": "opt_iterator", "n": n, "depth": d})
-            expect.append(("iterator", [list(v) for v in Iterator().cumulated_iterator(n, d)]))
-    for _ in range(60 if quick else 400):
-        n = rng.randint(1, 5)
-        st = [rng.randint(0, 3) for _ in range(n)]
-        inc = [rng.randint(0, n - 1 if rng.random() < 0.9 else n) for _ in range(rng.randint(0, 4))]
-        mx = rng.randint(1, 4)
-        t = TableTarget([[0] * 9] * n, [[0] * 9] * n, mx, None, st)
-        try:
-            nt = t.get_stepped_target(inc)
-            py = None if nt is None else list(nt.state)
-        except IndexError:
-            py = "IndexError"
-        reqs.append({"fn": "opt_stepped", "state": st, "inc": inc, "maxStep": mx})
-        expect.append(("stepped", py))
-
-    # ============================================================ C. weapon potentials
-    weapon_cases = []
-    tier_triples = [(a, b, c) for a in TIERS for b in TIERS for c in TIERS]
-    n_weapon = 10 if quick else 140
-    preferred = [(PotentialTier.legendary, PotentialTier.unique, PotentialTier.unique),
-                 (PotentialTier.unique, PotentialTier.epic, PotentialTier.epic),
-                 (PotentialTier.legendary, PotentialTier.legendary, PotentialTier.legendary),
-                 (PotentialTier.legendary, PotentialTier.unique, PotentialTier.empty),
-                 (PotentialTier.rare, PotentialTier.rare, PotentialTier.empty)]
-    for k in range(n_weapon):
-        lname = lnames[k % 5]
-        armor = (ARMORS + [None])[(k // 5 + k) % 4]
-        tiers = preferred[k % len(preferred)] if k < 2 * len(preferred) else rng.choice(tier_triples)
-        weapon_cases.append((lname, armor, tiers))
-    weapon_brute = 0
-    weapon_distinct = set()
-    for lname, armor, tiers in weapon_cases:
-        if ck.elapsed() > ck.budget_s * (0.72 if quick else 0.8):
-            ck.notes.append("time cap reached in weapon cases")
-            break
-        logic = make_logic(lname, rng)
+    # ------------------------------------------------------------ one weapon-potential case
+    def run_weapon(lname, armor, tiers, logic, refd):
+        nonlocal evaluations, weapon_brute
         eff_armor = 300 if armor is None else armor
-        refd = make_reference_stat(lname, eff_armor, rng)
         ref = Stat(**refd)
         desc = {"kind": "weapon", "logic": lname, "armor": armor, "ref": refd, "tiers": [t.value for t in tiers],
                 "logic_params": {"attack_range_constant": logic.attack_range_constant, "mastery": logic.mastery}}
@@ -733,10 +639,17 @@ def main(ck: Check):
         if len(triples) != n_full or len(rewards) != n_full + len(cands):
             ck.broken.append({"kind": "correspondence", "point": "weapon reward call count", "case": desc,
                               "triples": len(triples), "calls": n_full, "single_calls": len(rewards) - n_full})
-            continue
+            return
         table = [[key(w) + key(s) + key(e), frac_str(r)] for (w, s, e), r in zip(triples, rewards[:n_full])]
         table1 = [[key(c), frac_str(r)] for c, r in zip(cands, rewards[n_full:])]
         useful = sorted({oid(ids, s) for t in tiers for s in opt.get_useful_candidates(t)})
+        # hypothesis (1) of dominated_of_local_replacement on the real data: every tier list keeps a useful
+        # line that is neither boss nor ignore-defence (whenever anything at all has positive reward)
+        if best is not None and best > 0:
+            plain_checked[0] += 1
+            for t in tiers:
+                if not any(s.boss_damage_multiplier == 0 and s.ignored_defence == 0 for s in opt.get_useful_candidates(t)):
+                    fail("a tier has no useful plain line although the damage is positive", **desc, tier=t.value)
         reqs.append({"fn": "weapon_replay", "tiers": [[oid(ids, s) for s in lst] for lst in lists], "useful": useful,
                      "boss": [i for i, s in enumerate(id_stats) if s.boss_damage_multiplier > 0],
                      "ied": [i for i, s in enumerate(id_stats) if s.ignored_defence > 0],
@@ -744,6 +657,139 @@ def main(ck: Check):
         expect.append(("weapon", {"case": desc, "full": [key(p) for p in full] if chosen_any else None,
                                   "single": key(single) if sl else None,
                                   "candidates": [key(c) for c in cands], "emblem_candidates": [key(c) for c in ecands]}))
+
+    # ============================================================ replay mode: re-execute recorded failing inputs
+    if getattr(ck, 'replay', None):
+        import json as _json
+        import sys as _sys
+        rec = _json.loads(open(ck.replay).read())
+        n_run = 0
+        for it in rec.get('failing_inputs', []):
+            lp = it.get('logic_params') or {}
+            if 'synthetic' in it:
+                run_synthetic(it['synthetic']); n_run += 1
+            elif it.get('kind') in KINDS:
+                case = {k: it.get(k) for k in ('kind', 'logic', 'armor', 'ref', 'budget', 'jobs', 'preset_state', 'level', 'logic_params')}
+                case.update({'logic_obj': LOGICS[it['logic']][0](**lp), 'replay': False, 'tag': 'replay'})
+                run_stepwise(case); n_run += 1
+            elif it.get('kind') == 'weapon':
+                run_weapon(it['logic'], it['armor'], tuple(PotentialTier(t) for t in it['tiers']),
+                           LOGICS[it['logic']][0](**lp), it['ref']); n_run += 1
+        for f in ck.failing[:10]:
+            print('still failing:', _json.dumps(f, ensure_ascii=False, default=str)[:600])
+        for l in ck.known_lines:
+            print(l)
+        if ck.failing:
+            print(f'VIOLATION property=C19 replay={ck.replay}')
+        print(f'[C19] replay of {n_run} recorded inputs: {len(ck.failing)} failing')
+        _sys.exit(1 if ck.failing else 0)
+
+    # ============================================================ A. cases for the four step-wise targets
+    cases = []
+
+    def add_case(kind, lname, armor, budget, jobs=(), preset_state=None, level=None, replay=False, tag=""):
+        logic = make_logic(lname, rng)
+        ref_armor = 300 if armor is None else armor
+        cases.append({"kind": kind, "logic": lname, "logic_obj": logic, "armor": armor,
+                      "ref": make_reference_stat(lname, ref_armor, rng), "budget": budget, "jobs": list(jobs),
+                      "preset_state": preset_state, "level": level, "replay": replay, "tag": tag,
+                      "logic_params": {"attack_range_constant": logic.attack_range_constant, "mastery": logic.mastery}})
+
+    levels = [139, 140, 141, 150, 199, 200, 210, 250, 260, 275, 285, 300]
+    n_rounds = 1 if quick else 8
+    for rnd in range(n_rounds):
+        for li, lname in enumerate(lnames):
+            for ai, armor in enumerate(ARMORS + [None]):
+                rp = (rnd == 0 and (li + ai) % 2 == 0) if quick else (rnd < 2)
+                # hyperstat: budgets are the maximum cost of character levels, plus odd ones
+                lv = rng.choice(levels) if not (rnd == 0 and armor == 300) else 300
+                b = Hyperstat.get_maximum_cost_from_level(lv)
+                if rng.random() < 0.3:
+                    b = rng.randint(0, max(1, b))
+                pre = None
+                if rng.random() < 0.4:
+                    pre = [rng.choice([0, 0, 1, 2, 5]) for _ in range(10)]
+                add_case("hyperstat", lname, armor, b, preset_state=pre, level=lv, replay=rp)
+                # link skills: the character's own job is pre-assigned
+                jobs = rng.sample(link_jobs(), rng.choice([0, 1, 1, 1, 2]))
+                add_case("linkSkill", lname, armor, rng.choice([0, 1, 2, 3, 6, 12, 13, 13, 20, 28]),
+                         jobs=[j.value for j in jobs], replay=rp and ai < 2)
+                # union squad
+                jobs = rng.sample(squad_jobs(), rng.choice([0, 1, 1, 2, 3]))
+                add_case("unionSquad", lname, armor, rng.choice([0, 1, 2, 5, 7, 10, 15, 30, 36, 47, 48]),
+                         jobs=[j.value for j in jobs], replay=rp and ai == 0)
+                # union occupation, sometimes with the buff-duration preset of preset.py
+                pre = None
+                r = rng.random()
+                if r < 0.35:
+                    pre = get_buff_duration_preempted_union_occupation_state()
+                elif r < 0.5:
+                    pre = [rng.choice([0, 3, 10]) for _ in range(5)]
+                add_case("unionOccupation", lname, armor, rng.choice([0, 1, 2, 7, 20, 41, 60, 80, 120, 199, 200, 202]),
+                         preset_state=pre, replay=rp and ai < 3)
+    if not quick:
+        # all budgets 0..max for one configuration of each kind
+        lname = rng.choice(lnames)
+        for b in range(0, 29):
+            add_case("linkSkill", lname, rng.choice(ARMORS), b, jobs=[rng.choice(link_jobs()).value], tag="all-budgets")
+        for b in range(0, 49):
+            add_case("unionSquad", lname, rng.choice(ARMORS), b, jobs=[rng.choice(squad_jobs()).value], tag="all-budgets")
+        for b in range(0, 203, 3):
+            add_case("unionOccupation", lname, rng.choice(ARMORS), b, tag="all-budgets")
+        for lv in range(139, 301, 2):
+            add_case("hyperstat", rng.choice(lnames), rng.choice(ARMORS), Hyperstat.get_maximum_cost_from_level(lv),
+                     level=lv, tag="all-levels")
+
+    time_cap = ck.budget_s * (0.55 if quick else 0.6)
+    for n_done, case in enumerate(cases):
+        if ck.elapsed() > time_cap:
+            ck.notes.append(f"time cap reached after {n_done} step-wise cases of {len(cases)}")
+            break
+        run_stepwise(case)
+
+    # ============================================================ B. synthetic table targets (all paths)
+    for k in range(120 if quick else 1500):
+        run_synthetic(make_synthetic(rng))
+
+    # iterator and get_stepped_target, directly
+    for n in range(0, 7):
+        for d in range(0, 6):
+            reqs.append({"fn": "opt_iterator", "n": n, "depth": d})
+            expect.append(("iterator", [list(v) for v in Iterator().cumulated_iterator(n, d)]))
+    for _ in range(60 if quick else 400):
+        n = rng.randint(1, 5)
+        st = [rng.randint(0, 3) for _ in range(n)]
+        inc = [rng.randint(0, n - 1 if rng.random() < 0.9 else n) for _ in range(rng.randint(0, 4))]
+        mx = rng.randint(1, 4)
+        t = TableTarget([[0] * 9] * n, [[0] * 9] * n, mx, None, st)
+        try:
+            nt = t.get_stepped_target(inc)
+            py = None if nt is None else list(nt.state)
+        except IndexError:
+            py = "IndexError"
+        reqs.append({"fn": "opt_stepped", "state": st, "inc": inc, "maxStep": mx})
+        expect.append(("stepped", py))
+
+    # ============================================================ C. weapon potentials
+    weapon_cases = []
+    tier_triples = [(a, b, c) for a in TIERS for b in TIERS for c in TIERS]
+    n_weapon = 10 if quick else 200
+    preferred = [(PotentialTier.legendary, PotentialTier.unique, PotentialTier.unique),
+                 (PotentialTier.unique, PotentialTier.epic, PotentialTier.epic),
+                 (PotentialTier.legendary, PotentialTier.legendary, PotentialTier.legendary),
+                 (PotentialTier.legendary, PotentialTier.unique, PotentialTier.empty),
+                 (PotentialTier.rare, PotentialTier.rare, PotentialTier.empty)]
+    for k in range(n_weapon):
+        lname = lnames[k % 5]
+        armor = (ARMORS + [None])[(k // 5 + k) % 4]
+        tiers = preferred[k % len(preferred)] if k < 2 * len(preferred) else rng.choice(tier_triples)
+        weapon_cases.append((lname, armor, tiers))
+    for lname, armor, tiers in weapon_cases:
+        if ck.elapsed() > ck.budget_s * (0.72 if quick else 0.8):
+            ck.notes.append("time cap reached in weapon cases")
+            break
+        run_weapon(lname, armor, tiers, make_logic(lname, rng),
+                   make_reference_stat(lname, 300 if armor is None else armor, rng))
 
     # ============================================================ C2. the entry points of optimizer/preset.py
     from loguru import logger as _logger
@@ -920,6 +966,7 @@ def main(ck: Check):
         "weapon_cases": len(weapon_distinct),
         "preset_optimizer_entry_point_rounds": preset_calls,
         "weapon_legal_combinations_enumerated": weapon_brute,
+        "weapon_cases_with_a_useful_plain_line_in_every_tier": plain_checked[0],
         "model_vs_code_requests": len(reqs),
         "model_vs_code_per_point": per_point,
         "model_vs_code_disagreements": disagreements,
